@@ -46,6 +46,27 @@ def nounwind_probe(tu, flags):
         fn[name] = nu
     return fn
 
+def noexcept_probe(cfg, exprs):
+    """declared exception specifications as the compiler evaluates them: noexcept (<call expression>) for each named expression
+    over the configuration's types (E, A, V, VM), read back from the constants of the IR.  Independent of the bodies."""
+    if not exprs:
+        return {}
+    tu = os.path.join(INST, cfg.get('tu', 'cfg_main.cpp'))
+    src = '#include "%s"\n#include <utility>\n' % tu
+    names = sorted(exprs)
+    for i, n in enumerate(names):
+        src += 'extern "C" { extern const bool verif_nx_%d; const bool verif_nx_%d = noexcept (%s); }\n' % (i, i, exprs[n])
+    r = subprocess.run(['clang++', '-x', 'c++', '-S', '-emit-llvm', '-O0', '-o', '-'] + clang_flags(cfg) + ['-'], input=src, capture_output=True, text=True)
+    if r.returncode != 0:
+        raise RuntimeError('clang noexcept probe failed: ' + r.stderr[:3000])
+    out = {}
+    for i, n in enumerate(names):
+        m = re.search(r'^@verif_nx_%d = [^\n]*constant i8 (\d)' % i, r.stdout, re.M)
+        if not m:
+            raise RuntimeError('noexcept probe: constant verif_nx_%d (%s) not found in the IR' % (i, n))
+        out[n] = m.group(1) == '1'
+    return out
+
 def env_decls(path):
     s = open(path).read()
     return set(re.findall(r'\b(env_\w+)\s*\(', s))
